@@ -18,6 +18,17 @@ import types
 Pickler = pickle._Pickler
 
 
+def _holds_frozenset(obj):
+    # "<" between frozensets is set inclusion, which is only a partial order:
+    # sorted() does not raise on them (nor on tuples holding them) but its
+    # result depends on the order of its input.
+    if isinstance(obj, frozenset):
+        return True
+    if isinstance(obj, tuple):
+        return any(_holds_frozenset(e) for e in obj)
+    return False
+
+
 class _ConsistentSet(object):
     """Class used to ensure the hash of Sets is preserved
     whatever the order of its items.
@@ -26,6 +37,8 @@ class _ConsistentSet(object):
     def __init__(self, set_sequence):
         # Forces order of elements in set to ensure consistent hash.
         try:
+            if any(_holds_frozenset(e) for e in set_sequence):
+                raise TypeError("no total order on frozensets")
             # Trying first to order the set assuming the type of elements is
             # consistent and orderable.
             # This fails on python 3 when elements are unorderable
@@ -35,6 +48,12 @@ class _ConsistentSet(object):
             # If elements are unorderable, sorting them using their hash.
             # This is slower but works in any case.
             self._sequence = sorted((hash(e) for e in set_sequence))
+
+
+class _ConsistentFrozenSet(_ConsistentSet):
+    """Same as _ConsistentSet, for frozensets: a class of its own so that a
+    frozenset and the set of the same items have different hashes.
+    """
 
 
 class _MyHash(object):
@@ -140,6 +159,8 @@ class Hasher(Pickler):
             # consistent and orderable.
             # This fails on python 3 when keys are unorderable
             # but we keep it in a try as it's faster.
+            if any(_holds_frozenset(k) for k, _ in items):
+                raise TypeError("no total order on frozensets")
             Pickler._batch_setitems(self, iter(sorted(items)), *args)
         except TypeError:
             # If keys are unorderable, sorting them using their hash. This is
@@ -153,6 +174,13 @@ class Hasher(Pickler):
         Pickler.save(self, _ConsistentSet(set_items))
 
     dispatch[type(set())] = save_set
+
+    def save_frozenset(self, set_items):
+        # same for frozensets, which the Pickler would otherwise save in
+        # iteration order (it depends on PYTHONHASHSEED and insertion order)
+        Pickler.save(self, _ConsistentFrozenSet(set_items))
+
+    dispatch[frozenset] = save_frozenset
 
 
 class NumpyHasher(Hasher):
